@@ -175,3 +175,47 @@ def shrink(case):
     for i in range(len(x)):
         if len(x) > 1:
             yield {**case, "x": x[:i] + x[i + 1:], "y": y[:i] + y[i + 1:]}
+
+
+def extra(tier, seed, shard=0, nshards=1):
+    """Sanitizer pass (thorough tier, shard 0): every metric re-run with numba's bounds checking on, in a subprocess with a
+    private cache; an IndexError there is an out-of-range access in compiled code; values must equal the unchecked run."""
+    import json
+    import os
+    import shutil
+    import subprocess
+    import sys
+    import tempfile
+
+    if tier != "thorough" or shard != 0:
+        return []
+    res = Result()
+    tmp = tempfile.mkdtemp(prefix="c06_bc_")
+    try:
+        docs = {}
+        for mode in ("0", "1"):
+            env = dict(os.environ)
+            env["NUMBA_BOUNDSCHECK"] = mode
+            if mode == "1":
+                env["NUMBA_CACHE_DIR"] = os.path.join(tmp, "cache")
+            try:
+                pr = subprocess.run([sys.executable, "-m", "opfmon.boundscheck", str(seed)], env=env, cwd=tmp, timeout=900,
+                                    capture_output=True, text=True)
+                docs[mode] = json.loads(pr.stdout)
+            except Exception as ex:  # noqa: BLE001 - the pass could not run: inconclusive for this sub-claim, never an alarm
+                res.see("boundscheck_pass_failed_to_run")
+                res.note = repr(ex)[:300]
+                return [({"boundscheck_pass": "failed-to-run"}, res)]
+        for name, d1 in docs["1"]["metrics"].items():
+            res.see("boundscheck_metrics")
+            res.see("boundscheck_evaluations", len(d1["values"]))
+            idx_err = [e for e in d1["errors"] if "IndexError" in e]
+            if idx_err and not docs["0"]["metrics"][name]["errors"]:
+                res.violate("boundscheck", "C06/out-of-range-access-in-compiled-metric",
+                            f"{name}: with NUMBA_BOUNDSCHECK=1 the compiled metric raises {idx_err[0]} (silent wild read otherwise)")
+            elif d1["values"] != docs["0"]["metrics"][name]["values"]:
+                res.violate("boundscheck", "C06/boundscheck-value-differs", f"{name}: values differ between bounds-checked and unchecked compilation")
+        res.cell("boundscheck")
+        return [({"boundscheck_pass": {"metrics": len(docs["1"]["metrics"])}}, res)]
+    finally:
+        shutil.rmtree(tmp, ignore_errors=True)
